@@ -23,7 +23,7 @@ IsEvent(e) == l <= Len(Trace) /\ Trace[l].ev = e /\ l' = l + 1
 \* sequence numbers are 8-byte big-endian strings (TLC's integers are 32-bit; the counter is watched across 2^32 as well)
 Zero8 == <<0, 0, 0, 0, 0, 0, 0, 0>>
 RECURSIVE IncAt(_, _)
-IncAt(b, i) == IF i = 0 THEN Zero8                           \* (wrap-around: never reached by a real connection)
+IncAt(b, i) == IF i = 0 THEN <<256, 256, 256, 256, 256, 256, 256, 256>>   \* all sequence numbers are used up: no record may follow
                ELSE IF b[i] = 255 THEN IncAt([b EXCEPT ![i] = 0], i - 1) ELSE [b EXCEPT ![i] = b[i] + 1]
 Inc8(b) == IncAt(b, 8)
 RECURSIVE LeqFrom(_, _, _)
